@@ -8,12 +8,13 @@ import argparse, json, os, shutil, subprocess, sys, glob, time
 ap = argparse.ArgumentParser()
 ap.add_argument("prop"); ap.add_argument("k"); ap.add_argument("--tests", default="")
 ap.add_argument("--skip-check", action="store_true")
+ap.add_argument("--base", default="04de7e7", help="commit the seeded patch applies to (default: the pinned commit)")
 a = ap.parse_args()
 pid, k = a.prop, a.k
 src = f"/tmp/seed_{pid.lower()}_out/{k}"
 wt = f"/tmp/val_{pid.lower()}_{k}"
 subprocess.run(["git", "-C", "/repo", "worktree", "remove", "--force", wt], capture_output=True)
-subprocess.run(["git", "-C", "/repo", "worktree", "add", "--detach", wt], check=True, capture_output=True)
+subprocess.run(["git", "-C", "/repo", "worktree", "add", "--detach", wt, a.base], check=True, capture_output=True)
 env = {**os.environ, "PYTHONPATH": wt, "HOME": f"/tmp/val_home_{pid}_{k}"}
 os.makedirs(env["HOME"], exist_ok=True)
 res = {}
@@ -34,7 +35,7 @@ try:
     base = json.load(open(bfile)) if os.path.exists(bfile) else {}
     pr = "/tmp/val_pristine"
     if not os.path.isdir(pr):
-        subprocess.run(["git", "-C", "/repo", "worktree", "add", "--detach", pr], check=True, capture_output=True)
+        subprocess.run(["git", "-C", "/repo", "worktree", "add", "--detach", pr, "04de7e7"], check=True, capture_output=True)
     for t in tests:
         rel = os.path.relpath(t, wt)
         if rel not in base:
@@ -69,6 +70,7 @@ os.makedirs(out, exist_ok=True)
 shutil.copy(f"{src}/patch.diff", out); shutil.copy(f"{src}/demo.py", out)
 meta = json.load(open(f"{src}/meta.json")) if os.path.exists(f"{src}/meta.json") else {}
 meta["validated_by_integrator"] = res
+meta["base_commit"] = a.base
 caught = bool(res.get("check", {}).get("exit") == 1 and any("no-failing-input-found" not in l for l in res["check"]["lines"] if l.startswith("VIOLATION")))
 meta["caught_by_check"] = ("yes (concrete failing input)" if caught else
                            "broken-link only (no-failing-input-found)" if res.get("check", {}).get("exit") == 1 else
